@@ -348,6 +348,8 @@ def build_extra():
     C11.mixin_part(ce)
     ce.replay_pid = "C11"
     ce.only_verify = ["EnableDisableMixin.enable", "EnableDisableMixin.disable"]
+    ce.finite_checks.append(C11.enabled_is_monitored)       # MON: the flag's assignment announces it (see EN1)
+    ce.keep_finite = True
     # machine variables restored at boot are announced like any other change: a template subscribed before the load (core
     # modules are created before it) must not keep the pre-load value (C15's clause P3c on load_machine_vars, bounded set;
     # the other clauses of that function belong to C15 and are checked - and reported - there)
